@@ -19,6 +19,8 @@ import time
 
 VERIF = os.path.dirname(os.path.dirname(os.path.abspath(__file__)))
 REPO = os.environ.get("VERIF_REPO", "/repo")
+os.environ.setdefault("SVT_REPO", REPO)      # older extractors read SVT_REPO
+os.environ.setdefault("VERIF_REPO", REPO)
 LEAN = os.path.join(VERIF, "lean")
 CACHE = os.path.join(VERIF, ".cache")
 EVID = os.path.join(VERIF, "evidence")
